@@ -144,7 +144,7 @@ PROPS = {
         stages=[dict(harness='c15', variant='asan', mode='model', quick=20000, thorough=1000000,
                      need=['ops.record', 'ops.seek_undo_effective', 'ops.seek_redo_effective', 'model.merged', 'model.merged_into_non_newest', 'model.cap_dropped', 'state.at_cap', 'addresses.one_prefix_of_another', 'ops.seek_extreme_distance']),
                 dict(harness='c15', variant='asan', mode='e2e', quick=5000, thorough=200000,
-                     need=['e2e.sets', 'e2e.undo_all_checked', 'e2e.redo_all_checked'])],
+                     need=['e2e.sets', 'e2e.undo_all_checked', 'e2e.redo_all_checked', 'e2e.option_set_by_symbol'])],
         rule='case = one operation history; distinct = hash of the rendered history; every history with >=1 operation is non-trivial.',
         exhaustive=dict(quick=False, thorough=False),
         assumptions=['reference undo model harness/c15.cpp']),
